@@ -9,6 +9,7 @@ import (
 	"path/filepath"
 	"sort"
 	"strconv"
+	"strings"
 	"sync"
 	"testing"
 	"time"
@@ -128,7 +129,19 @@ func execPlan(p *Plan) (*oneOut, error) {
 				// request (or a snapshot) that never returned
 				return &oneOut{Findings: []Finding{{Clause: "C20.no-answer", Msg: "the plan did not finish within 150 s (plans normally take seconds): a request or snapshot never returned; goroutines at the timeout: " + tail(string(ob), 2500)}}, Probes: map[string]int{}}, nil
 			}
-			return &oneOut{Findings: []Finding{{Clause: "C20.panic", Msg: "the process executing the plan died: " + err.Error() + ": " + tail(string(ob), 1500)}}, Probes: map[string]int{}}, nil
+			// ... unless the goroutine that brought the process down never was
+			// in the code under test: then the harness itself failed (exit 2)
+			head := string(ob)
+			if i := strings.Index(head, "\n\ngoroutine "); i >= 0 {
+				// up to the end of the first goroutine's stack
+				if j := strings.Index(head[i+2:], "\n\n"); j >= 0 {
+					head = head[:i+2+j]
+				}
+			}
+			if (strings.HasPrefix(head, "panic: ") || strings.Contains(head, "\npanic: ")) && !strings.Contains(head, "github.com/maruel/panicparse") {
+				return nil, fmt.Errorf("the process executing the plan died in the harness, not in the code under test: %s", clip(head, 1500))
+			}
+			return &oneOut{Findings: []Finding{{Clause: "C20.panic", Msg: "the process executing the plan died: " + err.Error() + ": " + clip(head, 1200) + " ... " + tail(string(ob), 600)}}, Probes: map[string]int{}}, nil
 		}
 		return nil, rerr
 	}
